@@ -110,4 +110,23 @@ def jobs(tier: str):
                     yield job("C10/three", prog, uni, [config(["duplication"], IN0, [], oracle)],
                               meta={"set": sname, "ctx3": c3n})
 
+    def scope():
+        # a scoped literal (conditional literal / aggregate) of the set whose variable X is, per occurrence, bound
+        # outside the set (global in the rule), anonymous outside, or bound inside the set
+        scoped = ["g(1) : q(X)", "g(Y) : p(X,Y)", "1 <= #count { Y : p(X,Y) }", "not g(Y) : p(X,Y)"]
+        comps = ["z0", "e(Z)", "q(X)"]
+        outs = [("glob", "h{I} :- e(X); {S}."), ("anon", "h{I} :- e(_); {S}."), ("other", "h{I} :- e(W); {S}."),
+                ("head", "h{I}(X) :- e(X); {S}."), ("weak", ":~ e(X); {S}. [1@{I},X]")]
+        uni = ["p(1,2)", "p(2,1)", "p(2,2)", "q(1)", "q(2)", "e(1)", "e(2)", "g(1)", "z0"]
+        for sc in scoped:
+            for comp in comps:
+                for (o1n, o1), (o2n, o2) in product(outs, outs):
+                    if o1n > o2n:
+                        continue
+                    prog = o1.format(I=1, S=f"{sc}; {comp}") + "\n" + rename(o2.format(I=2, S=f"{sc}; {comp}"),
+                                                                             RENAMES[2][1])
+                    yield job("C10/scope", prog, uni, [config(["duplication"], IN0, [], oracle)],
+                              meta={"scoped": sc, "comp": comp, "outs": [o1n, o2n]})
+
     yield from dedupe(gen())
+    yield from dedupe(scope())
